@@ -19,7 +19,12 @@ RULE = (
     'Hypothesis over four case kinds.  weights: source xs (n=1..8) and '
     'targets (m=1..8) strictly monotonic in either direction, multiples of '
     '1/8, targets coincident with / interleaved between / outside the '
-    'source; getinterpweights(xs, nxs, extrapolate=False|True).  Oracle: '
+    'source, or the same-size grid shifted by 1/32..1/16 (mode shifted); in '
+    '1/3 of the cases the whole axis is mapped to x0 + s*x with x0 in '
+    '{1e5, 101325, 2451545, 946684800, 1640995200, +-2e9} and s in {0.25, '
+    '1, 8, 60, 3600, 86400} (values large compared with the spacing, still '
+    'exact in float64); the linear profile is a*(x-x0)/s+b so that the '
+    '1e-9 x field-scale tolerance is not inflated by the coordinate size; getinterpweights(xs, nxs, extrapolate=False|True).  Oracle: '
     'shape (n,m), finite; extrapolate=False -> every weight >= 0; column '
     'sums 1 (1e-9); linear profiles a*x+b reproduced (1e-9 x scale) - for '
     'every target when extrapolating, for in-range targets otherwise, '
@@ -127,9 +132,15 @@ def axis_pair(draw, nmin=1):
                               if k >= nmin]))
     xs = _mono(draw, n)
     mode = draw(st.sampled_from(['same', 'inside', 'inside', 'mixed', 'mixed',
-                                 'mixed', 'outside']))
+                                 'mixed', 'outside', 'shifted', 'shifted']))
     if mode == 'same':
         t = list(xs)
+    elif mode == 'shifted':
+        # same-size target grid displaced by a fraction of the smallest step
+        # (sources are multiples of 1/8): interleaved, never coincident
+        sh = draw(st.sampled_from([1 / 16., -1 / 16., 1 / 32., -1 / 32.,
+                                   3 / 64.]))
+        t = [x + sh for x in xs]
     else:
         m = draw(st.integers(1, 8))
         lo, hi = int(xs[0] * 8), int(xs[-1] * 8)
@@ -149,7 +160,17 @@ def axis_pair(draw, nmin=1):
         xs = xs[::-1]
     if draw(st.sampled_from([False, False, True])):
         t = t[::-1]
-    return xs, t, mode
+    # a share of coordinates whose VALUES are large compared with their
+    # spacing (seconds since 1970 at hourly steps, Julian dates, pressures
+    # in Pa): x -> x0 + scale * x, all still exact in float64
+    x0, scale = 0.0, 1.0
+    if draw(st.integers(0, 2)) == 0:
+        x0 = draw(st.sampled_from([1e5, 101325., 2451545., 946684800.,
+                                   1640995200., 2e9, -2e9]))
+        scale = draw(st.sampled_from([1., 1., 8., 60., 3600., 86400., 0.25]))
+        xs = [x0 + scale * x for x in xs]
+        t = [x0 + scale * x for x in t]
+    return xs, t, mode, x0, scale
 
 
 def _field(draw, size):
@@ -159,8 +180,9 @@ def _field(draw, size):
 
 @st.composite
 def case_weights(draw):
-    xs, t, mode = draw(axis_pair(nmin=1))
-    return dict(kind='weights', xs=xs, nxs=t, mode=mode,
+    xs, t, mode, x0, xscale = draw(axis_pair(nmin=1))
+    return dict(kind='weights', xs=xs, nxs=t, mode=mode, x0=x0,
+                xscale=xscale,
                 extrapolate=draw(st.booleans()),
                 field=_field(draw, len(xs)),
                 ab=[draw(st.integers(-8, 8)) / 2., draw(st.integers(-20, 20))
@@ -169,7 +191,7 @@ def case_weights(draw):
 
 @st.composite
 def case_interpdim(draw):
-    xs, t, mode = draw(axis_pair(nmin=2))
+    xs, t, mode, x0, xscale = draw(axis_pair(nmin=2))
     n = len(xs)
     others = draw(st.sampled_from([[], ['a'], ['a', 'b'], ['b', 'a'],
                                    ['a', 'b', 'c'], ['c', 'a', 'b']]))
@@ -197,7 +219,8 @@ def case_interpdim(draw):
             a = draw(st.integers(-6, 6)) or 3
             arr = np.array(data, dtype='d').reshape(shape)
             ax = dims.index('z')
-            xk = np.array([round(x * 8) for x in xs], dtype='d')
+            xk = np.array([round((x - x0) / xscale * 8) for x in xs],
+                          dtype='d')
             sh = [1] * len(shape)
             sh[ax] = n
             base = np.take(arr, [0], axis=ax)
@@ -215,11 +238,10 @@ def case_interpdim(draw):
     if kind == 'interpvars' and len(t) == n:
         # interpvars finds the old axis of the (new, old) weight matrix by
         # its length: new == old is outside its domain
-        t = t[:-1] if len(t) > 1 else t + [t[-1] + (1 if t[-1] >= t[0]
-                                                    else -1) * 0.0625]
+        t = t[:-1] if len(t) > 1 else t + [t[-1] + 0.0625 * xscale]
         if len(t) == n:
-            t = t + [t[-1] + 0.0625]
-    return dict(kind=kind, xs=xs, nxs=t, mode=mode,
+            t = t + [t[-1] + 0.0625 * xscale]
+    return dict(kind=kind, xs=xs, nxs=t, mode=mode, x0=x0, xscale=xscale,
                 extrapolate=draw(st.booleans()), olen=olen, vars=vs,
                 extra=extra, order=draw(st.sampled_from(['z-first',
                                                          'z-last'])),
@@ -361,7 +383,10 @@ def check_weights(spec, r):
     n, m = xs.size, t.size
     ex = bool(spec['extrapolate'])
     r.label('kind:weights', 'n=%d' % n if n <= 2 else 'n>=3',
-            'extrapolate:%s' % ex, 'mode:' + spec['mode'])
+            'extrapolate:%s' % ex, 'mode:' + spec['mode'],
+            'coord:' + ('large-offset' if spec.get('x0') else 'order-one'))
+    if spec.get('x0') and spec['mode'] == 'shifted':
+        r.label('large-offset+shifted-same-size')
     _direction_labels(r, spec['xs'], spec['nxs'])
     co, il, out = _placement(spec['xs'], spec['nxs'])
     r.label(*[k for k, b in (('targets:coincident', co),
@@ -392,12 +417,17 @@ def check_weights(spec, r):
     if np.abs(s - 1).max() > TOL:
         r.fail('weights-sum', 'column sums %r' % s.tolist(), klass=klass)
     a, b = spec['ab']
-    lin = a * xs + b
+    # the linear profile is a*(x - x0)/xscale + b: linear in x, but of the
+    # size of the field rather than of the coordinate values, so that the
+    # 1e-9 tolerance stays meaningful for coordinates of order 1e9
+    x0, xsc = spec.get('x0', 0.0), spec.get('xscale', 1.0)
+    lin = a * ((xs - x0) / xsc) + b
     got = (W * lin[:, None]).sum(0)
     lo, hi = xs.min(), xs.max()
     inr = (t >= lo) & (t <= hi)
     # one source point defines no line: continuation of its value
-    want = a * (t if (ex and n > 1) else np.clip(t, lo, hi)) + b
+    want = a * (((t if (ex and n > 1) else np.clip(t, lo, hi)) - x0) / xsc) \
+        + b
     sc = _scale(lin, want)
     bad = np.abs(got - want) > TOL * sc
     if bad.any():
@@ -515,7 +545,8 @@ def check_interpvars(spec, r):
     n, m = len(xs), len(t)
     ex = bool(spec['extrapolate'])
     f, arrays = _build_interp_file(spec)
-    r.label('kind:interpvars', 'extrapolate:%s' % ex, 'mode:' + spec['mode'])
+    r.label('kind:interpvars', 'extrapolate:%s' % ex, 'mode:' + spec['mode'],
+            'coord:' + ('large-offset' if spec.get('x0') else 'order-one'))
     _direction_labels(r, xs, t)
     nonlead = _var_labels(r, spec)
     co, il, out = _placement(xs, t)
@@ -577,7 +608,10 @@ def check_interpdim(spec, r):
     n, m = len(xs), len(t)
     ex = bool(spec['extrapolate'])
     f, arrays = _build_interp_file(spec)
-    r.label('kind:interpdim', 'extrapolate:%s' % ex, 'mode:' + spec['mode'])
+    r.label('kind:interpdim', 'extrapolate:%s' % ex, 'mode:' + spec['mode'],
+            'coord:' + ('large-offset' if spec.get('x0') else 'order-one'))
+    if spec.get('x0') and spec['mode'] == 'shifted':
+        r.label('large-offset+shifted-same-size')
     _direction_labels(r, xs, t)
     co, il, out = _placement(xs, t)
     r.label(*[k for k, b in (('targets:coincident', co),
